@@ -1331,11 +1331,18 @@ pub fn c08(tier: Tier, caps: &Caps) -> Vec<FamilyReport> {
     ));
     // a multi-byte character at every byte offset of every string a broker may send
     let mut mb: Vec<Vec<u8>> = Vec::new();
-    for ch in ["\u{e9}", "\u{20ac}", "\u{1f600}"] {
+    // (U+FEFF, the no-break space, a plain space and U+FFFD are ordinary characters of an MQTT string: nothing may be
+    // trimmed or replaced, at the start, in the middle or at the end)
+    for (ci, ch) in ["\u{e9}", "\u{20ac}", "\u{1f600}", "\u{feff}", "\u{a0}", " ", "\u{fffd}"].into_iter().enumerate() {
         for k in 0..=72usize {
+            if ci >= 3 && k > 8 && k < 70 {
+                continue;
+            }
             let mut st = vec![b'a'; k];
             st.extend_from_slice(ch.as_bytes());
-            st.extend_from_slice(b"zz");
+            if !(ci >= 3 && k % 2 == 1) {
+                st.extend_from_slice(b"zz");
+            }
             let pr = |id: u8, val: PVal| Prop { id, val };
             let publish = |topic: Vec<u8>, props: Vec<Prop>, qos: u8| SPacket::Publish { dup: false, qos, retain: false, topic, pid: if qos > 0 { Some(7) } else { None }, props, payload: vec![0x31] };
             mb.push(publish(st.clone(), vec![], (k % 3) as u8).encode());
@@ -1354,7 +1361,7 @@ pub fn c08(tier: Tier, caps: &Caps) -> Vec<FamilyReport> {
         "C08",
         mb.len() as u64 * 2,
         caps,
-        json!({"cases": "a 2-, 3- and 4-byte UTF-8 character at every byte offset 0..=72 of: PUBLISH topic, Content Type, Response Topic, User Property key and value, Reason String of PUBACK / SUBACK / DISCONNECT, Server Reference of DISCONNECT; each whole and byte-by-byte", "rx": WIDE_RX}),
+        json!({"cases": "a 2-, 3- and 4-byte UTF-8 character at every byte offset 0..=72 (and U+FEFF, U+00A0, a space, U+FFFD at the start, near it and at the end) of: PUBLISH topic, Content Type, Response Topic, User Property key and value, Reason String of PUBACK / SUBACK / DISCONNECT, Server Reference of DISCONNECT; each whole and byte-by-byte", "rx": WIDE_RX}),
         &|i| c08_after_connack_rx(&mb[(i / 2) as usize], i % 2 == 1, WIDE_RX),
         &|i| json!({"phase": "after-connack", "bytes": mr::hex(&mb[(i / 2) as usize]), "fragmented": i % 2 == 1, "rx": WIDE_RX}),
     ));
